@@ -23,7 +23,8 @@ RULE = (
     "history is a list of abstract ops resolved against the model (change to an offered / not offered session, requestSeed then sendKey "
     "with the right or a wrong key, ECU reset, reads incl. F186, writes, routines, tester present, repeats of the previous request, "
     "suppress-bit variants). A database holds 1..3 such runs with different seeds, target URLs, ECU names (ecu / address.ecu filled by the "
-    "harness as the docs prescribe) and properties_pre. Replay phase: DBUDSServer(db, ecu name and/or properties) behind "
+    "harness as the docs prescribe) and properties_pre. Half of the recorded ECUs are a variant whose answers depend on the security level, which is mute "
+    "for 1-2 requests after a reset and (even seeds) answers reads of F190 with a well-formed reply for F191 (a reply the client reports as mismatch). Replay phase: DBUDSServer(db, ecu name and/or properties) behind "
     "UDSServerTransport.handle_request from the default state, same request sequence. Oracle: the reply bytes captured on the recording "
     "wire are reproduced one by one, silence where nothing was received, whichever other runs the database contains. Requests without "
     "reply in a non-default state are excluded from the main search (recorded known finding) and counted. Non-trivial: the history has a "
@@ -98,6 +99,9 @@ def make_recorded_ecu(run: dict[str, Any]) -> Any:
             r = super().read_data_by_identifier(request)
             if isinstance(r, service.ReadDataByIdentifierResponse):
                 r.data_records[0] = bytes([self.state.security_access_level or 0]) + r.data_records[0]
+                if self.seed % 2 == 0 and request.data_identifiers == [0xF190]:
+                    # a well-formed answer to a different identifier: the client reports a mismatch, the bytes were received all the same
+                    r = service.ReadDataByIdentifierResponse(0xF191, r.data_records[0])
             return r
 
     rp = RandomUDSServer.RandomnessParameters(**run["params"]) if run["params"] else None
